@@ -34,7 +34,8 @@ class Opaque:
 def lit(raw):
     try:
         return ("lit", ast.literal_eval(ast.parse(raw, mode="eval")))
-    except (ValueError, SyntaxError, MemoryError):
+    except (ValueError, SyntaxError, MemoryError, TypeError):
+        # TypeError: valid syntax that is not a literal *value* ({[1]}, {[1]: 2}) — "the text otherwise"
         return ("text", raw)
 
 
@@ -72,6 +73,11 @@ def run(ctx, res):
     for n in range(0, ctx.pick(3, 4)):
         for ps in itertools.product(range(len(PIECES) + len(objs)), repeat=n):
             cases.append(list(ps))
+    # corpus: valid syntax that is not a literal value (literal_eval raises TypeError) — fixed in 2fb0b13
+    P = {p: i for i, p in enumerate(PIECES)}
+    cases.append([P["{"], P["["], P["1"], P["]"], P["}"]])
+    cases.append([P["{"], P["["], P["1"], P["]"], P[":"], P["2"], P["}"]])
+    cases.append([P["{"], len(PIECES) + 4, P["}"]])
     for _ in range(ctx.pick(3000, 30000)):
         cases.append([rng.randrange(len(PIECES) + len(objs)) for _ in range(rng.randrange(0, 9))])
 
